@@ -5,6 +5,10 @@ ROOT = os.path.dirname(os.path.dirname(os.path.abspath(__file__)))
 
 CLAIMED = {
  # id: (category, text, note, technique, design_ref)
+ "C07": ("exploration",
+         "Seeded simulation of a Frequent Items cluster: 2-6 nodes (i64/u64/String items, equal or mixed map sizes) take update bursts (incl. all-equal counts that make a purge remove every counter) and absorb each other's sketches along a PRNG-drawn merge DAG, in memory or as images over an exactly-once network (reorder, suppressed duplicates, loss/retransmit), with framed checkpoints, crashes with torn or surviving newest generation and WAL replay; after every event the exact stream weight / capacity / epsilon clauses are checked, and after every merge, restart and at quiescence every item of the domain is checked against the exact frequency map (bracketing, width, estimate range, frequent_items both error types, row/point-query agreement).",
+         "Trusted: exact frequency-map model; harness transport de-dup and durable WAL (torn checkpoints are rejected by the harness frame CRC and never reach the library).",
+         "deterministic simulation: merge DAG over exactly-once network + crash/restart with torn checkpoints vs exact frequency model", "DESIGN.md §4 C07"),
  "C05": ("exploration",
          "Seeded simulation of five CPC replicas of one lg_k (two on a shared ordered channel with duplicates; three on their own at-least-once channels with reordering, duplication, loss/retransmit) fed crafted (row,col) streams that walk every flavor and window offset up to 56; after every delivery num_coupons equals the model popcount, and at every flavor/offset change, scripted checkpoints and quiescence the reconstructed bit matrix, validate(), window offset, window allocation and soundness of first_interesting_column are checked against the bit-matrix model; identical sequences must give bit-identical estimates and all replicas converge.",
          "Trusted: bit-matrix model and the documented offset/flavor thresholds computed in wide integers. Streams are restricted to left-packed matrices (the surprising-value table holds at most 24K entries in every implementation); see DESIGN.md.",
